@@ -22,9 +22,9 @@ fn pow10(k: u32) -> Z {
 /// integer alphabet; `bits` = width of the machine type (0 = unbounded)
 fn int_alphabet(bits: u32, thorough: bool) -> Vec<Z> {
     let mut v: Vec<Z> = vec![];
-    let mut small: Vec<i64> = vec![0, 1, 2, 3, 4, 5, 6, 7, 12, 13, 46, 240];
+    let mut small: Vec<i64> = vec![0, 1, 2, 3, 4, 5, 6, 7, 8, 9, 10, 11, 12, 13, 15, 16, 17, 24, 35, 36, 46, 100, 240];
     if thorough {
-        small.extend([8, 9, 10, 11, 15, 16, 17, 24, 35, 36, 100]);
+        small.extend((14..=64).chain([81, 97, 128, 255, 256, 257, 1000, 1001, 30030]));
     }
     for i in small {
         v.push(z(i));
@@ -357,7 +357,7 @@ fn main() {
     sweep_div_round::<BigInt>(&run, &abig);
 
     // ---- Gaussian / Eisenstein integers ----------------------------------------------------------
-    let small = if th { 5 } else { 3 };
+    let small = if th { 6 } else { 4 };
     let big64 = [pow2(13) + z(1), pow2(26) + z(3)]; // products ~2^54..2^56: beyond f64's 2^53
     let big128 = [pow2(27) + z(1), pow2(53) + z(1), pow2(58) - z(1)];
     let bigbig = [pow2(27) + z(1), pow2(53) + z(1), pow10(30) + z(7), pow10(160) + z(1)];
